@@ -22,9 +22,51 @@ if [ $RC -ne 0 ]; then
 fi
 rm -f "$LOG"
 BIN=/verif/target/debug/check
+# C09 thorough: coverage-guided campaign (libFuzzer over the grammar's choice tape, oracle inside the
+# target) before the proptest campaign; its statistics go into the evidence file via VERIF_FUZZ_STATS.
+# A crash artifact is the replay unit. If the nightly fuzz build is unavailable the tier falls back to
+# the proptest campaign alone and says so in the evidence notes.
+if [ "$ID" = "C09" ] && [ "$MODE" = "thorough" ]; then
+  FZ=/verif/target/fuzz-c09; rm -rf "$FZ"; mkdir -p "$FZ/corpus" "$FZ/artifacts"
+  SEED=${VERIF_SEED:-1}; [ "$SEED" = "0" ] && SEED=1
+  if (cd /verif/harness && cargo +nightly fuzz build -s none c09_roundtrip >"$FZ/build.log" 2>&1); then
+    (cd /verif/harness && cargo +nightly fuzz run -s none c09_roundtrip "$FZ/corpus" -- -runs=${VERIF_FUZZ_RUNS:-3000000} -seed=$SEED -max_len=256 -len_control=0 -artifact_prefix="$FZ/artifacts/" >"$FZ/run.log" 2>&1)
+    FRC=$?
+    CRASH=$(ls "$FZ"/artifacts/crash-* 2>/dev/null | head -1)
+    if [ -n "$CRASH" ]; then
+      mkdir -p /verif/replays/C09; cp "$CRASH" /verif/replays/C09/
+      grep -m1 "C09 violated" "$FZ/run.log" | cut -c1-600
+      echo "VIOLATION property=C09 replay=/verif/replays/C09/$(basename "$CRASH")"
+      FUZZ_VIOLATION=1
+    fi
+    python3 - "$FZ" "$FRC" <<'PY'
+import sys,re,json,os
+fz,frc=sys.argv[1],int(sys.argv[2])
+log=open(fz+'/run.log',errors='replace').read()
+m=re.findall(r'#(\d+)\s+\w+\s+cov: (\d+) ft: (\d+) corp: (\d+)',log)
+done=re.search(r'Done (\d+) runs in (\d+) second',log)
+st={'engine':'libFuzzer (cargo-fuzz, -s none)','target':'c09_roundtrip','exit':frc,
+    'runs':int(done.group(1)) if done else (int(m[-1][0]) if m else 0),'seconds':int(done.group(2)) if done else None,
+    'coverage_edges':int(m[-1][1]) if m else None,'features':int(m[-1][2]) if m else None,'corpus':int(m[-1][3]) if m else None,
+    'crashes':len([f for f in os.listdir(fz+'/artifacts') if f.startswith('crash-')])}
+json.dump(st,open(fz+'/stats.json','w'))
+PY
+    export VERIF_FUZZ_STATS="$FZ/stats.json"
+  else
+    echo '{"unavailable": "cargo +nightly fuzz build failed; see /verif/target/fuzz-c09/build.log"}' > "$FZ/stats.json"
+    export VERIF_FUZZ_STATS="$FZ/stats.json"
+  fi
+fi
 # the engine logs recovery chatter ("[persist] ...", hnsw_rs build lines) on stderr: drop it
 case "$MODE" in
-  quick|thorough) "$BIN" "$ID" --tier "$MODE" 2> >(grep -v -e '^\[persist\]' -e '^\[wal\]' >&2); exit $? ;;
-  replay) "$BIN" "$ID" --replay "$3" 2> >(grep -v -e '^\[persist\]' -e '^\[wal\]' >&2); exit $? ;;
+  quick|thorough) "$BIN" "$ID" --tier "$MODE" 2> >(grep -v -e '^\[persist\]' -e '^\[wal\]' >&2); RC=$?; [ "${FUZZ_VIOLATION:-0}" = "1" ] && [ $RC -eq 0 ] && RC=1; exit $RC ;;
+  replay)
+    # a libFuzzer crash artifact (not JSON) is replayed through the fuzz target
+    if [ "$ID" = "C09" ] && ! head -c1 "$3" | grep -q '{'; then
+      OUT=$(cd /verif/harness && cargo +nightly fuzz run -s none c09_roundtrip "$3" 2>&1 | grep -m1 "C09 violated" | cut -c1-800)
+      if [ -n "$OUT" ]; then echo "$OUT"; echo "VIOLATION property=C09 replay=$3"; exit 1; fi
+      echo "replay $3: property held on this input"; exit 0
+    fi
+    "$BIN" "$ID" --replay "$3" 2> >(grep -v -e '^\[persist\]' -e '^\[wal\]' >&2); exit $? ;;
   *) echo "unknown mode $MODE"; exit 2 ;;
 esac
